@@ -26,6 +26,7 @@ type Program struct {
 	built       map[*ssa.Package]bool
 	modulePath  string
 	overlayMap  map[string]string // virtual path -> real harness path
+	pdoms       map[*ssa.Function]*pdomInfo
 }
 
 const modulePath = "github.com/Trendyol/go-dcp"
